@@ -77,11 +77,27 @@ theorem getChild_cases {s s' : NodeStore} {e : Nat} (h : View s s' e) (n : TreeN
     · simp only [h1, h2]
       exact .inr (.inr ⟨m, q, rfl, rfl⟩)
 
+theorem getChildForProof_cases {s s' : NodeStore} {e : Nat} (h : View s s' e) (n : TreeNode) (p : NodeLabel)
+    (d : Direction) :
+    (∃ x, s'.getChildForProof (setP n p) d e = .error x ∧ s.getChildForProof n d e = .error x) ∨
+    (s'.getChildForProof (setP n p) d e = .ok none ∧ s.getChildForProof n d e = .ok none) ∨
+    (∃ ch q, s'.getChildForProof (setP n p) d e = .ok (some (setP ch q)) ∧
+      s.getChildForProof n d e = .ok (some ch)) := by
+  unfold getChildForProof
+  rw [setP_childLabel]
+  rcases getChild_cases h n p d with ⟨x, h1, h2⟩ | ⟨h1, h2⟩ | ⟨ch, q, h1, h2⟩
+  · rw [h1, h2]; exact .inl ⟨x, rfl, rfl⟩
+  · rw [h1, h2]
+    cases (n.childLabel d).isSome
+    · exact .inr (.inl ⟨rfl, rfl⟩)
+    · exact .inl ⟨.notFound, rfl, rfl⟩
+  · rw [h1, h2]; exact .inr (.inr ⟨ch, q, rfl, rfl⟩)
+
 theorem childElement_congr {s s' : NodeStore} {e : Nat} (h : View s s' e) (c : Cfg) (n : TreeNode)
     (p : NodeLabel) (d : Direction) :
     childElement c s' (setP n p) d e = childElement c s n d e := by
   unfold childElement
-  rcases getChild_cases h n p d with ⟨x, h1, h2⟩ | ⟨h1, h2⟩ | ⟨ch, q, h1, h2⟩
+  rcases getChildForProof_cases h n p d with ⟨x, h1, h2⟩ | ⟨h1, h2⟩ | ⟨ch, q, h1, h2⟩
   · rw [h1, h2]
   · rw [h1, h2]
   · rw [h1, h2]; rfl
@@ -94,7 +110,7 @@ theorem lcpWalk_succ (c : Cfg) (s : NodeStore) (label : NodeLabel) (ep f : Nat) 
       if (decide (label = cur.label) || decide (cur.label.prefixOrdering label = .invalid)) = true then
         .ok (cur, prev, sps, decide (label = cur.label))
       else
-        match s.getChild cur (if cur.label.prefixOrdering label = .withZero then .left else .right) ep with
+        match s.getChildForProof cur (if cur.label.prefixOrdering label = .withZero then .left else .right) ep with
         | .error e => .error e
         | .ok none => .ok (cur, prev, sps, decide (label = cur.label))
         | .ok (some child) =>
@@ -112,7 +128,7 @@ theorem lcpWalk_succ_setP (c : Cfg) (s : NodeStore) (label : NodeLabel) (ep f : 
       if (decide (label = cur.label) || decide (cur.label.prefixOrdering label = .invalid)) = true then
         .ok (setP cur p, prev, sps, decide (label = cur.label))
       else
-        match s.getChild (setP cur p)
+        match s.getChildForProof (setP cur p)
             (if cur.label.prefixOrdering label = .withZero then .left else .right) ep with
         | .error e => .error e
         | .ok none => .ok (setP cur p, prev, sps, decide (label = cur.label))
@@ -143,7 +159,7 @@ theorem lcpWalk_cases {s s' : NodeStore} {e : Nat} (h : View s s' e) (c : Cfg) (
     · rw [if_pos hc, if_pos hc]
       exact .inr ⟨cur, prev, sps, _, p, p2, rfl, rfl⟩
     · rw [if_neg hc, if_neg hc, childElement_congr h]
-      rcases getChild_cases h cur p dir with ⟨x, h1, h2⟩ | ⟨h1, h2⟩ | ⟨ch, q, h1, h2⟩
+      rcases getChildForProof_cases h cur p dir with ⟨x, h1, h2⟩ | ⟨h1, h2⟩ | ⟨ch, q, h1, h2⟩
       · rw [h1, h2]
         exact .inl ⟨x, rfl, rfl⟩
       · rw [h1, h2]
@@ -185,7 +201,7 @@ theorem rootHash_congr {s s' : NodeStore} (c : Cfg) (a : Azks) (h : View s s' a.
 
 /-- the `childEl` closure of `nonMembershipProof` -/
 def nmChild (c : Cfg) (s : NodeStore) (e : Nat) (n : TreeNode) (d : Direction) : Except Err AzksElement :=
-  match s.getChild n d e with
+  match s.getChildForProof n d e with
   | .error e => .error e
   | .ok none => .ok ⟨c.emptyLabel, c.emptyNodeHash⟩
   | .ok (some ch) =>
@@ -211,7 +227,7 @@ theorem nmChild_congr {s s' : NodeStore} {e : Nat} (h : View s s' e) (c : Cfg) (
     (p : NodeLabel) (d : Direction) :
     nmChild c s' e (setP n p) d = nmChild c s e n d := by
   unfold nmChild
-  rcases getChild_cases h n p d with ⟨x, h1, h2⟩ | ⟨h1, h2⟩ | ⟨ch, q, h1, h2⟩
+  rcases getChildForProof_cases h n p d with ⟨x, h1, h2⟩ | ⟨h1, h2⟩ | ⟨ch, q, h1, h2⟩
   · rw [h1, h2]
   · rw [h1, h2]
   · rw [h1, h2]
